@@ -26,8 +26,9 @@ EXPLANATION = (
     "offset bounds, and the Fields helpers commute with column permutations. The model is "
     "compared with the running methods by certified interval evaluation / vm_compute, the "
     "action covariance is evaluated on the real EOM.action with the real quadrature, and the "
-    "whole pipeline (phase tracing, hydrodynamics, solveWall) is run on a two-field model in "
-    "relabelled coordinates and compared with the base run.")
+    "whole pipeline (phase tracing, hydrodynamics, solveWall) is run on a two-field and a "
+    "three-field polynomial model in relabelled coordinates (phases at the origin of no "
+    "direction) and compared with the base run through the proved transformation laws.")
 
 # ------------------------------------------------------------------------------------
 # two-field model in arbitrary field coordinates:  new[j] = sign[j]*base[perm[j]] + shift[j]
@@ -731,11 +732,17 @@ def run(ctx):
         "unit level: random dyadic configurations of 1-4 fields (vevs in [-8,8]+-12, widths "
         "in [1/4,7/8], offsets in [-3,3], first offset 0) with a random permutation, sign "
         "pattern and shift; distinct = distinct (configuration, relabelling). End to end: "
-        "xSM-like two-field high-T potential, Tn=100, equilibrium solveWall; quick = base + "
-        "swap + translation (60,-45); thorough = both permutations x all four sign patterns "
-        "with random integer shifts in [-120,120]^2 + pure reflections. Tolerances: vw 4e-3 "
-        "(solver errTol 1e-3; observed scatter 4e-4), vwLTE 1e-5, vJ 1e-6, T+- 1.5e-3 rel (they follow vw: observed 3e-4), "
-        "widths 3% (observed 2e-4), wall separation 3% of the larger width, phases 1e-4*246.")
+        "xsm2 = xSM-like two-field high-T potential (phases (0,s) and (v,0), per-field FD "
+        "scales 50/30 permuted along), xsm3 = the same plus a heavy field following "
+        "0.3 h^2/246 (third wall, same free energies); Tn=100, equilibrium solveWall, default "
+        "config. quick = xsm2 base + swap + translation (60,-45) and the recorded xsm3 finding "
+        "(chi listed first); thorough adds both xsm2 orderings x all four sign patterns with "
+        "random integer shifts in [-120,120]^2, pure reflections, and the four xsm3 orderings "
+        "that pin h or s with random signs/shifts. Tolerances when another field is pinned: vw "
+        "4e-3 (brentq xtol = errTol = 1e-3; observed 4.2e-4), T+- 1.5e-3 rel (observed 3e-4), "
+        "widths 3% (observed 1.1e-4), wall separation 3% of the largest width; same field "
+        "order: vw 2e-5 (observed 3e-7), T+- 1e-5, widths and separation 5e-4 (observed "
+        "4e-5); always vwLTE 1e-5, vJ 1e-6, phases 1e-4*246.")
     ctx.assumptions += [
         "the potential part U of the action (user potential evaluated on the profile + "
         "spectral quadrature) is a functional of the profile that is invariant when profile "
